@@ -225,6 +225,19 @@ Proof.
       * rewrite IH. split; intros [b Hb]; exists b; [rewrite Hb; reflexivity | inversion Hb; reflexivity].
       * split; [discriminate | intros [b Hb]; inversion Hb; congruence].
 Qed.
+Lemma ends_with_spec ext f : ends_with ext f = true <-> exists a, f = (a ++ ext)%string.
+Proof.
+  induction f as [|c f IH].
+  - cbn [ends_with]. rewrite orb_false_r, String.eqb_eq. split.
+    + intros ->. exists EmptyString. reflexivity.
+    + intros [a Ha]. destruct a; [exact (eq_sym Ha) | discriminate].
+  - change (ends_with ext (String c f)) with (String.eqb ext (String c f) || ends_with ext f).
+    rewrite orb_true_iff, IH, String.eqb_eq. split.
+    + intros [->|[a ->]]; [exists EmptyString; reflexivity | exists (String c a); reflexivity].
+    + intros [a Ha]. destruct a as [|d a]; cbn in Ha.
+      * left. exact (eq_sym Ha).
+      * right. inversion Ha. exists a. reflexivity.
+Qed.
 Lemma extension_spec ext f : extension_ok ext f = true <-> exists a b, f = (a ++ ext ++ b)%string.
 Proof.
   induction f as [|c f IH].
